@@ -49,7 +49,7 @@ def run(ctx):
     ctx.floor("R-ATOM.writer_sites", 1)
     # the live-token counters move by +1 / -1 only: no plain store or swap outside the constructor
     sync.counter_only_rmw(ctx, fx, VS, "fsa::version_sync::VersionManager", ["active_readers", "active_writers"])
-    ctx.floor("R-COUNT.rmw.rmw_sites", 4)
+    ctx.floor("R-COUNT.rmw.rmw_sites", 2)
     # clause 2: one critical section
     k = 0
     r = need(fx, VM + "acquire_reader_token")
